@@ -193,7 +193,9 @@ def run_coq_cases(workdir, name, text, timeout=1500):
     p = os.path.join(workdir, name + ".v")
     with open(p, "w") as f:
         f.write(text)
-    rc, out = sh(["coqc", "-Q", COQ, "GB", "-w", "-notation-overridden", p], cwd=workdir, timeout=timeout)
+    # long string literals in case files need a deep stack in coqc
+    rc, out = sh("ulimit -s unlimited 2>/dev/null || ulimit -s 1000000; exec coqc -Q %s GB -w -notation-overridden %s" % (COQ, p),
+                 cwd=workdir, timeout=timeout)
     for ext in (".vo", ".vok", ".vos", ".glob"):
         try:
             os.remove(os.path.join(workdir, name + ext))
